@@ -44,7 +44,7 @@ ASSUMPTIONS = [
 ]
 REAL_STUB = {"real": ["onnx_ir.serde (to_proto / from_proto)", "onnx_ir core"], "stub": [], "harness_extension_points": ["LazyTensor thunks"]}
 
-EDITS = ["drop_type", "drop_shape", "empty_optional_output", "none_input", "rename_value", "rename_node", "add_node", "remove_unused", "doc", "metadata", "attr_set", "attr_del", "retensor", "symbolic_shape", "symbolic_shape", "denotation", "denotation", "seq_type", "shadow_name", "shadow_name", "share_tensor", "share_tensor"]
+EDITS = ["drop_type", "drop_shape", "empty_optional_output", "none_input", "rename_value", "rename_node", "add_node", "remove_unused", "doc", "metadata", "attr_set", "attr_del", "retensor", "symbolic_shape", "symbolic_shape", "denotation", "denotation", "seq_type", "shadow_name", "shadow_name", "share_tensor", "share_tensor", "tensor_meta", "tensor_meta", "share_tensor_attr"]
 
 
 def gen_case(run_seed: int, tier: str, index: int = 0) -> dict:
@@ -57,7 +57,7 @@ def gen_case(run_seed: int, tier: str, index: int = 0) -> dict:
     edits = [[r.choice(EDITS), r.randrange(1 << 20), r.randrange(1 << 20)] for _ in range(r.choice([0, 2, 5, 8, 12]))]
     hist = ops.bootstrap_ops() + ops.gen_ops(r, r.choice([15, 30, 50]))
     probes = sorted(r.sample(range(len(hist) + 1), r.choice([2, 3, 5])))
-    return {"property": PROPERTY, "run_seed": run_seed, "model_seed": r.randrange(1 << 30), "params": params, "edits": edits, "devices": r.random() < 0.3, "ops": hist, "probes": probes}
+    return {"property": PROPERTY, "run_seed": run_seed, "model_seed": r.randrange(1 << 30), "params": params, "edits": edits, "devices": r.random() < 0.3, "ops": hist, "probes": probes, "reload_at": (r.randrange(len(edits)) if edits and r.random() < 0.4 else None)}
 
 
 def _all_nodes(model):
@@ -171,6 +171,49 @@ def apply_edit(model, edit, fresh) -> str:
                 iv.const_value.doc_string = "tensor doc"
             except Exception:  # noqa: BLE001
                 pass
+    elif kind == "tensor_meta":
+        # metadata carried by a tensor itself (initializer or Constant attribute), edited in place: added, removed, emptied
+        ts = [x.const_value for g in model.graphs() for x in g.initializers.values() if x.const_value is not None]
+        for x in nodes:
+            for at in x.attributes.values():
+                if not at.is_ref() and at.type == ir.AttributeType.TENSOR and at.value is not None:
+                    ts.append(at.value)
+        ts = [t for t in ts if hasattr(t, "metadata_props")]
+        if not ts:
+            return "noop"
+        t = ts[a % len(ts)]
+        which = b % 4
+        try:
+            if which == 0:
+                t.metadata_props[f"tk{b % 3}"] = f"tv{(b >> 3) % 3}"
+            elif which == 1:
+                if t.metadata_props:
+                    del t.metadata_props[sorted(t.metadata_props)[0]]
+            elif which == 2:
+                t.metadata_props.clear()
+            else:
+                t.doc_string = None if (b >> 3) % 2 else "tdoc"
+        except (TypeError, AttributeError):
+            return "noop"
+    elif kind == "share_tensor_attr":
+        # ONE tensor object behind an initializer and behind a Constant node's attribute (tensors may be shared)
+        inits = [x for g in model.graphs() for x in g.initializers.values() if x.const_value is not None and x.const_value.dtype == ir.DataType.FLOAT]
+        consts = [x for x in nodes if x.op_type == "Constant" and "value" in x.attributes and not x.attributes["value"].is_ref() and x.attributes["value"].type == ir.AttributeType.TENSOR]
+        if not inits or not consts:
+            return "noop"
+        iv, cn = inits[a % len(inits)], consts[b % len(consts)]
+        if (b >> 4) % 2:
+            # the initializer adopts the Constant's tensor (which keeps its own name: const_value= does not rename it)
+            t = cn.attributes["value"].value
+            iv.const_value = t
+            iv.shape = ir.Shape(list(t.shape.numpy())) if iv.shape is not None else None
+            iv.type = ir.TensorType(t.dtype) if iv.type is not None else None
+        else:
+            cn.attributes["value"] = ir.AttrTensor("value", iv.const_value)
+            out0 = cn.outputs[0]
+            t = iv.const_value
+            out0.shape = ir.Shape(list(t.shape.numpy())) if out0.shape is not None else None
+            out0.type = ir.TensorType(t.dtype) if out0.type is not None else None
     elif kind == "share_tensor":
         # two differently named initializers backed by ONE tensor object (e.g. tied weights)
         for g in model.graphs():
@@ -261,6 +304,24 @@ def probe(model, w: World, inc, where: str):
         return ({"clause": "second-serialization-raised", "detail": f"{where}: the second to_proto raised {type(e).__name__}: {e}", "key": "second-serialization-raised"}, None)
     if b1 != b2:
         return ({"clause": "serializing-twice-differs", "detail": f"{where}: two consecutive to_proto calls give different protos", "key": "serializing-twice-differs"}, None)
+    if isinstance(model, ir.Model) and model.ir_version < 11:
+        # the multi-device fields exist from IR version 11 only: below it they are left out everywhere, at any depth
+        def has_md(gp) -> str | None:
+            for np_ in gp.node:
+                if len(np_.device_configurations):
+                    return np_.name
+                for a_ in np_.attribute:
+                    for sg in ([a_.g] if a_.HasField("g") else []) + list(a_.graphs):
+                        r_ = has_md(sg)
+                        if r_ is not None:
+                            return r_
+            return None
+
+        bad = has_md(p1.graph)
+        for fp in p1.functions:
+            bad = bad or has_md(fp)
+        if bad is not None or len(p1.configuration):
+            return ({"clause": "multi-device-fields-below-ir-version-11", "detail": f"{where}: the proto of an ir_version={model.ir_version} model carries device configurations (node {bad!r})", "key": "multi-device-fields-below-ir-version-11"}, None)
     return (None, p1)
 
 
@@ -305,7 +366,7 @@ def run_case(case: dict) -> dict:
         k[0] += 1
         return f"{p}_{k[0]}"
 
-    if case.get("devices") and case["params"]["ir_version"] >= 11:
+    if case.get("devices"):
         drng = random.Random(case["model_seed"] ^ 0xD0C)
         cfgs = [model.add_device_configuration("cfg0", num_devices=2)]
         if drng.random() < 0.4:
@@ -327,7 +388,14 @@ def run_case(case: dict) -> dict:
                     inc("device_pipeline_stage")
             except Exception:  # noqa: BLE001
                 inc("device_annotation_rejected")
-    for e in case["edits"]:
+    for ei, e in enumerate(case["edits"]):
+        if case.get("reload_at") == ei:
+            # continue on a deserialized copy: its tensors are proto-backed and remember what the proto said
+            try:
+                model = ir.from_proto(ir.to_proto(model))
+                inc("reloaded_mid_history")
+            except Exception:  # noqa: BLE001
+                pass
         try:
             out = apply_edit(model, e, fresh)
         except Exception as ex:  # noqa: BLE001
@@ -395,6 +463,13 @@ def shrink_candidates(case: dict, violation: dict):
     for i in range(len(case["edits"])):
         c = copy.deepcopy(case)
         c["edits"] = case["edits"][:i] + case["edits"][i + 1 :]
+        ra = case.get("reload_at")
+        if ra is not None:
+            c["reload_at"] = ra - 1 if i < ra else (ra if ra < len(c["edits"]) else None)
+        yield c
+    if case.get("reload_at") is not None:
+        c = copy.deepcopy(case)
+        c["reload_at"] = None
         yield c
     if case.get("devices"):
         c = copy.deepcopy(case)
